@@ -28,17 +28,38 @@ LEVEL = "proof"
 HASHSEEDS = {"quick": [0, 1, 2, 3], "thorough": [0, 1, 2, 3, 4, 5, 6, 7]}
 BUDGET_S = {"quick": 400, "thorough": 1500}  # caps for a loaded machine; quick needs ~25 s on 16 cores
 EXHAUSTIVE = {"quick": False, "thorough": False}
-RULE = ("random option combinations over 2..6 columns (names str or int): score tables generic (unique maxima), "
-        "with few distinct values or almost flat (many ties, compared exactly under every hash seed), start DAG none/random with shuffled node order, fixed/black/white "
-        "lists as list/set/tuple, max_indegree 0..3/None, tabu_length 0/1/2/5/None, dyadic epsilon incl. 0 and "
-        "negative, max_iter 0..40, zero and non-zero structure_prior_ratio, cache on/off; malformed stream: "
-        "start_dag over other nodes, fixed edges closing a cycle, fixed edge naming a non-column.  "
-        "sessions: one estimator object reused for several estimate() calls with different tables/hyper-parameters/options.  "
-        "_legal_operations compared on random DAGs with random tabu lists.  ExhaustiveSearch on 2..4 columns.  "
-        "TreeSearch for every root (and automatic root) on random data with mutual_info / normalized / table "
-        "weight functions incl. ties, negative and zero weights; TAN for class/root pairs.  A case is "
-        "non-trivial when at least one operation was applied (hc), the graph has an edge or a candidate (legal), "
-        "n>=3 (exh, tree); distinct = distinct generated input")
+RULE = ("random option combinations over 1..8 columns (2..6 mostly): score tables generic (unique maxima), few-valued or almost "
+        "flat (many ties, compared exactly under every hash seed), with differences of 1e-9 ('fine') and magnitudes of 1e10 "
+        "('big'); start DAG none/random with shuffled node order, fixed/black/white lists as list/set/tuple incl. empty white "
+        "list, max_indegree 0..3/None, tabu_length 0/1/2/5/100/None, dyadic epsilon incl. 0 and negative, max_iter 0..40 as "
+        "int or float, zero and non-zero structure_prior_ratio, cache on/off, show_progress; malformed stream: start_dag over "
+        "other nodes, fixed edges closing a cycle, fixed edge naming a non-column.  A case is non-trivial when at least one "
+        "operation was applied (hc), the graph has an edge or a candidate (legal), n>=3 (exh, tree); distinct = distinct "
+        "generated input.  GENERALISATION CLASSES -- "
+        "A sessions: one HillClimbSearch reused for 2-4 estimate() calls with new tables/options/hyper-parameters (streams "
+        "session, builtin rounds, reject), one ExhaustiveSearch for all_dags/all_scores/estimate x2, one TreeSearch for two "
+        "weight functions with explicit and automatic root; the estimators have no mutators of their own.  "
+        "B purity: start_dag (nodes, edges, predecessor order), the fixed/black/white list objects and the DataFrame (labels, "
+        "dtypes, cells) equal their snapshots after every call.  "
+        "C result independence: the returned DAG is scribbled on (edges removed, node added) and the same call repeated on the "
+        "same object with the same argument objects gives a distinct, equal result (hc, exh, tree).  "
+        "D pandas: index range/shifted/permuted/gapped/duplicate/string/negative, columns int/bool/categorical/categorical "
+        "with unused or reordered categories/constant, column order shuffled (builtin, exh default scorer, tree); weights are "
+        "checked against mutual information computed from the raw rows, built-in results against the same frame under a "
+        "RangeIndex.  E names: str, int, mixed int/str (hc, legal, tree, cache; ExhaustiveSearch sorts the labels and the "
+        "Gaussian scores paste them into a formula, so those two get sortable resp. identifier names only), substrings of "
+        "each other, the operation keywords '+', '-', 'flip', falsy '' and 0.  F state names: 1-based, reversed, gapped, bool, "
+        "declared state_names with unobserved states.  G sizes: 1 column, 7-8 columns, int labels >= 8 in shuffled order, "
+        "cardinality-1 columns, empty lists, 0 vs None for max_indegree/tabu_length/epsilon/max_iter, falsy root and class "
+        "names.  H magnitudes: tables 'fine'/'big', weight tables ~1e-18 and ~1e20, negative and zero weights; knife-edge "
+        "delta == epsilon is exact on dyadic tables; NaN/inf scores are outside the property.  I backends: not applicable "
+        "(structure search never touches the numpy/torch factor backend).  J variants: k2/bdeu/bds/bic/aic/bic-g/aic-g by "
+        "name (any case) and as instances, all-defaults call, use_cache, state_names, ScoreCache max_size, all_dags(nodes), "
+        "default ExhaustiveSearch scorer, chow-liu/tan, mutual_info/adjusted/normalized/callable weights, n_jobs 1/2, "
+        "show_progress, root None.  K rejected calls: invalid scoring names/objects, start_dag not a DAG, non-iterable "
+        "fixed_edges, unknown root/class/estimator_type/weight function, root == class -- each followed by a good call on the "
+        "same object.  L orders: node/edge insertion order of start_dag, column order, set(fixed_edges) order, hash seeds, "
+        "row order (weights).  M budget: cases are shuffled; the budget floor is enforced by tools/check.py")
 TRUSTED_BASE = ["networkx: DiGraph storage and iteration order (nodes, adjacency, predecessors), copy(), has_path, "
                 "all_simple_paths, is_directed_acyclic_graph, from_pandas_adjacency (drops zero weights), "
                 "maximum_spanning_tree (Kruskal; its output is checked by the proved optimality checker on every "
@@ -52,8 +73,6 @@ ASSUMPTIONS = ["node names are interned to nat identifiers by the harness",
                "nx.all_simple_paths is read by its documented meaning (Props.C11_flip_test_faithful relates it to the model's test)",
                "scores are dyadic rationals so float arithmetic of the deltas is exact"]
 
-
-FINDING_TAN_UNUSED = "tan-unused-class-category"
 
 NAMES = ["A", "B", "C", "D", "E", "F", "G", "H", "K", "foo", "bar", "x1", "x2", "Zz", "q",
          "x10", "G2", "AB", "+", "-", "flip", "None", "0", "a b", "node", ""]  # substrings of each other, operation keywords, falsy
@@ -69,15 +88,15 @@ def cases(tier, seed):
     rng = random.Random(seed)
     out = []
     nq = tier == "quick"
-    for i in range(700 if nq else 7000):
+    for i in range(600 if nq else 7000):
         out.append({"kind": "hc", "seed": rng.randint(0, 10**9)})
-    for i in range(500 if nq else 5000):
+    for i in range(400 if nq else 5000):
         out.append({"kind": "legal", "seed": rng.randint(0, 10**9)})
-    for i in range(120 if nq else 400):
+    for i in range(100 if nq else 500):
         out.append({"kind": "builtin", "seed": rng.randint(0, 10**9)})
     for i in range(40 if nq else 250):
         out.append({"kind": "exh", "seed": rng.randint(0, 10**9), "n": rng.choice([1, 2, 3, 3, 3, 3, 4] if nq else [1, 2, 3, 3, 4, 4])})
-    for i in range(120 if nq else 900):
+    for i in range(80 if nq else 900):
         out.append({"kind": "tree", "seed": rng.randint(0, 10**9)})
     for i in range(3 if nq else 12):
         out.append({"kind": "hc", "seed": rng.randint(0, 10**9), "foreign": True})
@@ -1015,18 +1034,7 @@ def case_tree(case, drv):
         if kind == "tan":
             return TreeSearch._get_conditional_weights(frame_, names[cls], fn, n_jobs, show)
         return TreeSearch._get_weights(frame_, fn, n_jobs, show)
-    try:
-        W = weights_of(df)
-    except ValueError as e:
-        col = df.iloc[:, cls] if cls is not None else None
-        if (kind == "tan" and col is not None and str(col.dtype) == "category"
-                and len(col.cat.categories) > col.nunique() and "math domain" in str(e)):
-            # narrow diagnosis of one known class: TAN, class column categorical with a declared, unobserved category
-            return bad("impl!=spec:tan-crashes-on-unused-class-category",
-                       {"class_column": K(names[cls]), "categories": [repr(x) for x in col.cat.categories],
-                        "observed": sorted(repr(x) for x in col.unique()), "error": str(e)},
-                       finding=FINDING_TAN_UNUSED, key=key, tags=tags + ["tan-unused-class-category"])
-        raise
+    W = weights_of(df)   # (a categorical class column with an unobserved category crashed here before /repo 7cd818c)
     keep = [i for i in range(n) if i != cls]
     if W.shape != (n, n) or not np.array_equal(W, W.T) or any(W[i, i] != 0 for i in range(n)):
         return bad("impl!=spec:weights-not-symmetric", {}, key=key, tags=tags)
@@ -1183,7 +1191,8 @@ def case_tree(case, drv):
         if not (chk and span) or sorted(e3) != sorted(tuple(e) for e in orient):
             return bad("impl!=spec:tree-reused-object(auto root)", {"edges": e3, "root": idx[K(ta.root_node)], "mst_chk": chk}, key=key, tags=tags)
     # argument checks
-    for kw in ({"estimator_type": "nope"}, {"estimator_type": "tan"}, {"estimator_type": "tan", "class_node": "__none__"}):
+    for kw in ({"estimator_type": "nope"}, {"estimator_type": "tan"}, {"estimator_type": "tan", "class_node": "__none__"},
+               {"edge_weights_fn": 5}, {"edge_weights_fn": "mutual"}):
         try:
             TreeSearch(df, root_node=names[0], n_jobs=1).estimate(show_progress=False, **kw)
             return bad("impl!=spec:tree-bad-argument-accepted", {"kw": str(kw)}, key=key, tags=tags)
